@@ -796,23 +796,41 @@ class History:
             out[s] = seen
         return succ, out
 
+    # optional arguments of the editing operations (documented signatures: weight= / weights=[...])
+    @staticmethod
+    def _kw_weight(rng, p=0.35):
+        return {"weight": rng.choice([0.1, 0.3, 0.5, 1, 2])} if rng.random() < p else {}
+
+    @staticmethod
+    def _kw_weights(rng, n, p=0.45):
+        """weights=[...] for a batch of n elements; now and then of the wrong length (documented ValueError)."""
+        x = rng.random()
+        if x >= p or n == 0:
+            return {}
+        k = n + 1 if x < 0.04 else n
+        return {"weights": [rng.choice([0.1, 0.3, 0.5, 1, 2]) for _ in range(k)]}
+
     def bn_add_node(self, ent, st, rng):
         o = ent.o
         absent, present = self._absent(ent), self._present(ent)
         n = rng.choice(absent) if absent and (not present or rng.random() < 0.8) else rng.choice(present or self.names)
         if hasattr(o, "latents") and self.kind != "mn":
             lat = st["flag"] and rng.random() < 0.7
-            return Plan(lambda: o.add_node(n, latent=lat), f"add_node({n!r}, latent={lat})")
-        return Plan(lambda: o.add_node(n), f"add_node({n!r})")
+            kw = self._kw_weight(rng)
+            return Plan(lambda: o.add_node(n, latent=lat, **kw), f"add_node({n!r}, latent={lat}, **{kw})")
+        kw = self._kw_weight(rng)
+        return Plan(lambda: o.add_node(n, **kw), f"add_node({n!r}, **{kw})")
 
     def bn_add_nodes(self, ent, st, rng):
         o = ent.o
         ns = rng.sample(self.names, rng.randint(1, 3))
         if self.kind != "mn":
             lat = [rng.random() < 0.5 for _ in ns] if st["flag"] else (rng.random() < 0.3)
-            return Plan(lambda: o.add_nodes_from(ns, latent=lat), f"add_nodes_from({ns!r}, latent={lat})",
+            kw = self._kw_weights(rng, len(ns))
+            return Plan(lambda: o.add_nodes_from(ns, latent=lat, **kw), f"add_nodes_from({ns!r}, latent={lat}, **{kw})",
                         single=len(ns) == 1)
-        return Plan(lambda: o.add_nodes_from(ns), f"add_nodes_from({ns!r})", single=len(ns) == 1)
+        kw = self._kw_weights(rng, len(ns))
+        return Plan(lambda: o.add_nodes_from(ns, **kw), f"add_nodes_from({ns!r}, **{kw})", single=len(ns) == 1)
 
     def _bn_edge(self, ent, bad, m, rng):
         present, absent = self._present(ent), self._absent(ent)
@@ -838,16 +856,25 @@ class History:
         o = ent.o
         u, w, mode = self._bn_edge(ent, st["bad"], st["m"], rng)
         self.ctx.feature("edge:" + mode)
-        return Plan(lambda: o.add_edge(u, w), f"add_edge({u!r}, {w!r}) [{mode}]", info={"mode": mode})
+        kw = self._kw_weight(rng)
+        if kw:
+            self.ctx.feature("edge-weighted:" + mode)
+        return Plan(lambda: o.add_edge(u, w, **kw), f"add_edge({u!r}, {w!r}, **{kw}) [{mode}]", info={"mode": mode})
 
     def bn_add_edges(self, ent, st, rng):
         o = ent.o
-        eb = []
+        eb, modes = [], []
         k = rng.randint(1, 4)
+        badpos = rng.randrange(k)            # the invalid edge (if any) sits anywhere in the batch
         for j in range(k):
-            u, w, mode = self._bn_edge(ent, st["bad"] and j == k - 1, rng.randrange(1000), rng)
+            u, w, mode = self._bn_edge(ent, st["bad"] and j == badpos, rng.randrange(1000), rng)
             eb.append((u, w))
-        return Plan(lambda: o.add_edges_from(eb), f"add_edges_from({eb!r})", single=len(eb) == 1)
+            modes.append(mode)
+        kw = self._kw_weights(rng, len(eb))
+        if kw:
+            for mode in modes:
+                self.ctx.feature("edges-weighted:" + mode)
+        return Plan(lambda: o.add_edges_from(eb, **kw), f"add_edges_from({eb!r}, **{kw}) {modes}", single=len(eb) == 1)
 
     def _unknown(self, ent, rng):
         absent = self._absent(ent)
@@ -1140,13 +1167,16 @@ class History:
     def mn_add_edge(self, ent, st, rng):
         o = ent.o
         u, w, mode = self._mn_edge(ent, st["bad"], st["m"], rng)
-        return Plan(lambda: o.add_edge(u, w), f"add_edge({u!r}, {w!r}) [{mode}]")
+        kw = self._kw_weight(rng)
+        return Plan(lambda: o.add_edge(u, w, **kw), f"add_edge({u!r}, {w!r}, **{kw}) [{mode}]")
 
     def mn_add_edges(self, ent, st, rng):
         o = ent.o
         k = rng.randint(1, 4)
-        eb = [self._mn_edge(ent, st["bad"] and j == k - 1, rng.randrange(1000), rng)[:2] for j in range(k)]
-        return Plan(lambda: o.add_edges_from(eb), f"add_edges_from({eb!r})", single=len(eb) == 1)
+        badpos = rng.randrange(k)
+        eb = [self._mn_edge(ent, st["bad"] and j == badpos, rng.randrange(1000), rng)[:2] for j in range(k)]
+        kw = self._kw_weights(rng, len(eb))
+        return Plan(lambda: o.add_edges_from(eb, **kw), f"add_edges_from({eb!r}, **{kw})", single=len(eb) == 1)
 
     def mn_add_factor(self, ent, st, rng):
         o = ent.o
@@ -1215,14 +1245,16 @@ class History:
             arg = pick(["p", 7], st["m"])
             return Plan(lambda: o.add_node(arg), f"add_node({arg!r}) [not a clique]")
         arg = list(n) if st["flag"] else n
-        return Plan(lambda: o.add_node(arg), f"add_node({arg!r})")
+        kw = self._kw_weight(rng)
+        return Plan(lambda: o.add_node(arg, **kw), f"add_node({arg!r}, **{kw})")
 
     def jt_add_nodes(self, ent, st, rng):
         o = ent.o
         ns = rng.sample(self.names, rng.randint(1, 3))
         if st["bad"]:
             ns = ns + ["p"]
-        return Plan(lambda: o.add_nodes_from(ns), f"add_nodes_from({ns!r})", single=len(ns) == 1)
+        kw = self._kw_weight(rng, 0.25)          # ClusterGraph.add_nodes_from(nodes, **kwargs) hands kwargs to add_node
+        return Plan(lambda: o.add_nodes_from(ns, **kw), f"add_nodes_from({ns!r}, **{kw})", single=len(ns) == 1)
 
     def _jt_edge(self, ent, bad, m, rng):
         present, absent = self._present(ent), self._absent(ent)
@@ -1266,18 +1298,21 @@ class History:
         self.ctx.feature("jt-edge:" + mode)
         if mode == "list":
             u = list(u)
-        return Plan(lambda: o.add_edge(u, w), f"add_edge({u!r}, {w!r}) [{mode}]",
+        kw = self._kw_weight(rng)
+        return Plan(lambda: o.add_edge(u, w, **kw), f"add_edge({u!r}, {w!r}, **{kw}) [{mode}]",
                     info={"mode": mode, "selfnew": mode == "selfnew"})
 
     def jt_add_edges(self, ent, st, rng):
         o = ent.o
         k = rng.randint(1, 3)
+        badpos = rng.randrange(k)
         eb, selfnew = [], False
         for j in range(k):
-            u, w, mode = self._jt_edge(ent, st["bad"] and j == k - 1, rng.randrange(1000), rng)
+            u, w, mode = self._jt_edge(ent, st["bad"] and j == badpos, rng.randrange(1000), rng)
             selfnew = selfnew or mode == "selfnew"
             eb.append((u, w))
-        return Plan(lambda: o.add_edges_from(eb), f"add_edges_from({eb!r})", single=len(eb) == 1,
+        kw = self._kw_weights(rng, len(eb))
+        return Plan(lambda: o.add_edges_from(eb, **kw), f"add_edges_from({eb!r}, **{kw})", single=len(eb) == 1,
                     info={"selfnew": selfnew})
 
     def jt_remove_node(self, ent, st, rng):
@@ -1317,7 +1352,10 @@ class History:
     def dbn_add_node(self, ent, st, rng):
         o = ent.o
         n = rng.choice(self.names)
-        return Plan(lambda: o.add_node(n), f"add_node({n!r})")
+        kw = self._kw_weight(rng)                 # DBN.add_node(node, **attr) -> DAG.add_node(weight=, latent=)
+        if st["flag"] and rng.random() < 0.4:
+            kw["latent"] = True
+        return Plan(lambda: o.add_node(n, **kw), f"add_node({n!r}, **{kw})")
 
     def dbn_add_nodes(self, ent, st, rng):
         o = ent.o
@@ -1366,13 +1404,16 @@ class History:
         o = ent.o
         u, w, mode = self._dbn_edge(ent, st["bad"], st["m"], rng)
         self.ctx.feature("dbn-edge:" + mode)
-        return Plan(lambda: o.add_edge(u, w), f"add_edge({u!r}, {w!r}) [{mode}]", info={"mode": mode})
+        kw = self._kw_weight(rng)
+        return Plan(lambda: o.add_edge(u, w, **kw), f"add_edge({u!r}, {w!r}, **{kw}) [{mode}]", info={"mode": mode})
 
     def dbn_add_edges(self, ent, st, rng):
         o = ent.o
         k = rng.randint(1, 4)
-        eb = [self._dbn_edge(ent, st["bad"] and j == k - 1, rng.randrange(1000), rng)[:2] for j in range(k)]
-        return Plan(lambda: o.add_edges_from(eb), f"add_edges_from({eb!r})", single=len(eb) == 1)
+        badpos = rng.randrange(k)
+        eb = [self._dbn_edge(ent, st["bad"] and j == badpos, rng.randrange(1000), rng)[:2] for j in range(k)]
+        kw = self._kw_weights(rng, len(eb), 0.3)   # DBN.add_edges_from(ebunch, **kwargs) accepts and ignores them
+        return Plan(lambda: o.add_edges_from(eb, **kw), f"add_edges_from({eb!r}, **{kw})", single=len(eb) == 1)
 
     def _dbn_unknown(self, ent, rng):
         have = {repr(nk(n)) for n in ent.o._node}
